@@ -101,6 +101,7 @@ def check(ctx):
     ctor = [c for c in calls_in(f_rm.node) if m.resolve_call(f_rm, c) == 'gambit.sigs.base.SignaturesMeta']
     rep.require(len(ctor) == 1, 'read_metadata: expected one SignaturesMeta(...) construction')
     kws = {k.arg: k.value for k in ctor[0].keywords}
+    rep.account_returns('H2', f_rm, [s for s in stmts_in(f_rm.node.body) if isinstance(s, ast.Return) and s.value is ctor[0]], 'metadata object')
     rep.add('H2', f_rm.site(ctor[0]), 'every metadata field is stored and restored (fields == names written == keywords on read)', set(fields) == set(mw) == set(kws) and not ctor[0].args,
             expected=sorted(fields), found=dict(written=sorted(map(str, mw)), restored=sorted(kws)), stmt='metadata coverage')
     metap = f_wm.params()[1]
@@ -348,6 +349,7 @@ def check(ctx):
     okmeta = any(u(s.value) == f'{sc}.meta' and isref in path_atoms(gmc[s]) for s in metas) and any(u(s.value) == f'np.asarray({sc}.ids)' and isref in path_atoms(gmc[s]) for s in idsd)
     rep.add('H8', f_cr.site(metas[0] if metas else None), 'ids and metadata of an annotated collection are the ones stored', okmeta, expected=f'ids = np.asarray({sc}.ids); meta = {sc}.meta', found=[u(s) for s in metas + idsd], stmt='create sources')
     last = f_cr.node.body[-1]
+    rep.account_returns('H8', f_cr, [last] if isinstance(last, ast.Return) else [], 'written collection')
     rep.add('H8', f_cr.site(last), 'create returns the reader over the group it has just written', isinstance(last, ast.Return) and u(last.value) == f'cls({gc})', expected=f'cls({gc})', found=u(last), stmt='create result')
     body = [s for s in f_dp.node.body if not (isinstance(s, ast.Expr) and isinstance(s.value, ast.Constant))]
     okd = len(body) == 1 and isinstance(body[0], ast.With) and len(body[0].items) == 1 and u(body[0].items[0].context_expr) in (f"h5.File({f_dp.params()[0]}, 'w')",) \
